@@ -32,7 +32,7 @@ REAL = ["JobShopInstance (all views, to_dict, from_matrices, from_taillard_file)
         "DispatchingRuleSolver", "graph builders", "SingleJobShopGraphEnv", "ORToolsSolver"]
 STUB = ["open() inside job_shop_lib._job_shop_instance -> in-memory file system", "cp_model.CpSolver -> pinned subclass"]
 ASSUMPTIONS = ["k-th occurrence of a job in a machine's sequence = k-th operation of that job on that machine",
-               "corruptions are permutations (the multiset of jobs per machine is preserved)",
+               "corruptions are permutations or lost entries; surplus entries are not generated (the statement does not say whether leftovers must be rejected)",
                "hang = more than (n_ops+1)*(n_machines+1)*400 Python calls inside from_job_sequences"]
 STATE_MEASURE = "distinct (instance hash, actor op kind, position) tuples"
 
@@ -48,7 +48,9 @@ def generate(seed, tier):
         ops = []
         for _ in range(rng.randint(0, 4)):
             r = rng.random()
-            if r < 0.5:
+            if r < 0.12:
+                ops.append(["drop", rng.randrange(8), rng.randrange(16)])
+            elif r < 0.5:
                 ops.append(["swap", rng.randrange(8), rng.randrange(16), rng.randrange(16)])
             elif r < 0.75:
                 ops.append(["rotate", rng.randrange(8), rng.randint(1, 5)])
@@ -353,11 +355,13 @@ def execute_sequences(case, ctx):
     original = [list(s) for s in seqs]
     for k, op in enumerate(case["ops"]):
         ctx.step = k
-        cand = [x for x in range(len(seqs)) if len(seqs[x]) >= 2]
+        cand = [x for x in range(len(seqs)) if len(seqs[x]) >= (1 if op[0] == "drop" else 2)]
         if not cand:
             break
         s = seqs[cand[op[1] % len(cand)]]
-        if op[0] == "swap":
+        if op[0] == "drop":  # a lost entry: the sequences then admit no complete schedule
+            del s[op[2] % len(s)]
+        elif op[0] == "swap":
             a, b = op[2] % len(s), op[3] % len(s)
             s[a], s[b] = s[b], s[a]
         elif op[0] == "rotate":
@@ -395,7 +399,7 @@ def execute_sequences(case, ctx):
         ctx.fail("from_job_sequences_terminates", f"{what}: more than {budget} Python calls without returning")
         return
     if want is None:
-        ctx.probe("cyclic_sequences")
+        ctx.probe("cyclic_sequences" if not any(o[0] == "drop" for o in case["ops"]) else "sequences_with_lost_entries")
         ctx.check(err is not None, "rejected_iff_no_schedule", lambda: f"{what}: the sequences admit no schedule (cyclic precedence) but a schedule was returned: {sched_tuples(result)}")
         ctx.check(err is None or isinstance(err, ValidationError), "rejects_with_validation_error", lambda: f"{what}: rejected with {short_exc(err)}, not a ValidationError")
     else:
